@@ -194,19 +194,14 @@ Definition sort_by (lt : hitem -> hitem -> bool) (l : list hitem) : list hitem :
 (* ---- HintBuffer: last write per (hash,key) wins, insertion order kept, capacity checked for new keys ---- *)
 Definition same_hk (a b : hitem) : bool := (hi_hash a =? hi_hash b) && bytes_eqb (hi_key a) (hi_key b).
 
-Fixpoint buf_replace (l : list hitem) (it : hitem) : option (list hitem) :=
-  match l with
-  | [] => None
-  | x :: t => if same_hk x it then Some (it :: t)
-              else match buf_replace t it with Some t' => Some (x :: t') | None => None end
-  end.
+(* replaced items move to the end, so the last item of a hash is the key most recently set
+   for it (what HintBuffer.index points at); the order is otherwise irrelevant (Dump sorts) *)
+Definition buf_has (l : list hitem) (it : hitem) : bool := existsb (fun x => same_hk x it) l.
 
 (* None = buffer full (caller rotates to a new split) *)
 Definition buf_set (cap : N) (l : list hitem) (it : hitem) : option (list hitem) :=
-  match buf_replace l it with
-  | Some l' => Some l'
-  | None => if cap <=? lenN l then None else Some (l ++ [it])
-  end.
+  if buf_has l it then Some (filter (fun x => negb (same_hk x it)) l ++ [it])
+  else if cap <=? lenN l then None else Some (l ++ [it]).
 
 Definition buf_dump (l : list hitem) (interval datasize : N) : bytes :=
   hint_write (sort_by hk_ltb l) interval datasize.
